@@ -35,8 +35,11 @@ const (
 	errCanceled errKind = iota
 	errDeadline
 	errCustom
-	errStd // a real context.WithCancel, cancelled by the simulator
+	errStd      // a real context.WithCancel, cancelled by the simulator
+	errStdCause // a real context.WithCancelCause: Err() is Canceled, Cause() is something else
 )
+
+var errCauseValue = errors.New("zzverif: cancellation cause (not the context's error)")
 
 var errCustomValue = errors.New("zzverif: custom cancellation cause")
 
@@ -46,6 +49,7 @@ type simCtx struct {
 	err     error
 	std     context.Context
 	cancel  context.CancelFunc
+	cancelC context.CancelCauseFunc
 	fireAt  int // tick index at which the canceller fires; -1 never
 	fired   bool
 	nticks  int
@@ -66,6 +70,8 @@ func newSimCtx(kind errKind, fireAt int) *simCtx {
 	switch kind {
 	case errStd:
 		c.std, c.cancel = context.WithCancel(context.Background())
+	case errStdCause:
+		c.std, c.cancelC = context.WithCancelCause(context.Background())
 	default:
 		c.done = make(chan struct{})
 	}
@@ -82,6 +88,9 @@ func (c *simCtx) fire(kind byte) {
 	switch c.kind {
 	case errStd:
 		c.cancel()
+		c.err = context.Canceled
+	case errStdCause:
+		c.cancelC(errCauseValue)
 		c.err = context.Canceled
 	case errCanceled:
 		c.err = context.Canceled
@@ -134,7 +143,7 @@ func (c *simCtx) Done() <-chan struct{} {
 		k = 'L'
 	}
 	c.tick(k)
-	if c.kind == errStd {
+	if c.kind == errStd || c.kind == errStdCause {
 		return c.std.Done()
 	}
 	return c.done
@@ -142,7 +151,7 @@ func (c *simCtx) Done() <-chan struct{} {
 
 func (c *simCtx) Err() error {
 	c.errCalls++
-	if c.kind == errStd {
+	if c.kind == errStd || c.kind == errStdCause {
 		return c.std.Err()
 	}
 	if c.fired {
@@ -152,7 +161,12 @@ func (c *simCtx) Err() error {
 }
 
 func (c *simCtx) Deadline() (time.Time, bool) { return time.Time{}, false }
-func (c *simCtx) Value(key any) any           { return nil }
+func (c *simCtx) Value(key any) any {
+	if c.std != nil {
+		return c.std.Value(key) // lets context.Cause find the underlying cancelCtx
+	}
+	return nil
+}
 
 // ---------------------------------------------------------------------------------
 // recording listener / error handler
@@ -491,7 +505,7 @@ func (engine) Run(src *sim.Src, log *sim.Log, res *sim.Result) {
 		if fireAt < 0 && fireAt != -2 {
 			fireAt = 0
 		}
-		ek := errKind(src.Pick(4, 2, 2, 3))
+		ek := errKind(src.Pick(4, 2, 2, 3, 2))
 
 		ctx := newSimCtx(ek, fireAt)
 		rec := &recorder{ctx: ctx, ref: rrec.ev, diverged: -1, stopAt: stopAt, spans: spanTok}
@@ -610,7 +624,7 @@ func (engine) Run(src *sim.Src, log *sim.Log, res *sim.Result) {
 
 		// probes + schedule fingerprint
 		if ctx.fired {
-			res.Fault("cancel:" + [...]string{"Canceled", "DeadlineExceeded", "custom-error", "std-WithCancel"}[ek])
+			res.Fault("cancel:" + [...]string{"Canceled", "DeadlineExceeded", "custom-error", "std-WithCancel", "std-WithCancelCause"}[ek])
 			res.Fault(fmt.Sprintf("cancel-at:%c", fk))
 			if fk == 'H' {
 				res.Probe("fired-inside-error-handler")
